@@ -1,10 +1,57 @@
 from engine import Query
+import os
+
 META = {
- 'functions': ['Memory::Copy / Memory::SetToZero (Memory.hpp:31-92)'],
- 'bounds': '',
- 'outside': '',
- 'assumptions': [],
+ 'functions': [
+  'Array<int>, Array<Tracked>: every public member of Array.hpp except Sort (C15): ctors, copy/move assign, += / Insert of array (copy, move) '
+  'and item (copy, move), Clear, Reset, Detach, Reserve, Resize, ResizeAndInitialize, Expect, Compress, Drop, Swap, observers',
+  'String<Char>: every public member of String.hpp except operator<<(Stream_T&, const String&): ctors, assignments, += / + / << / Merge / '
+  'Write, ==,!=,<,<=,>,>= against String and C string, IsEqual, Reset, Detach, Trim, StepBack, Reverse, InsertAt, observers',
+  'StringStream<Char>: every public member of StringStream.hpp except the generic operator<<(Stream_T&, const StringStream&): ctors, '
+  'assignments, += / << / Write, ==,!= , IsEqual, Clear, Reset, StepBack, Reverse, InsertAt, SetLength, Buffer, Expect, Reserve, Detach, '
+  'GetString, GetStringView, InsertNull, observers',
+  'StringView<Char>: ctors, assignments, comparison operators against view and C string, IsEqual, Reset, observers',
+  'Memory::Copy / Memory::SetToZero (Memory.hpp:31-92) in the scalar, SSE2 (-DQENTEM_SSE2=1 -msse2) and AVX2 (-DQENTEM_AVX2=1 -mavx2) builds; '
+  'the containers reach Memory::Copy (scalar build), Memory::Allocate/Deallocate/Initialize/Dispose, StringUtils::Count/IsEqual/IsLess/IsGreater/Trim',
+ ],
+ 'bounds': 'one operation applied to a pre-state built through the public API: Array capacity in {0,1,2,4} (thorough: +3), size symbolic <= capacity, '
+           'second array capacity 2 (thorough 0,1,2,4); String block of 0 or 2 units (thorough 0..4) stepped back by a symbolic amount, or no block; '
+           'StringStream capacity in {0,1,2,4} (thorough: +8), length symbolic <= capacity; StringView over 0..2 (thorough 0..4) units; '
+           'argument strings/views/pointers of 2 units (thorough 0..3), numeric arguments in {0,1,3} (thorough {0,1,2,3,5}); contents and all '
+           'indices symbolic; aliasing arguments (the object itself / a slice of its own storage / nullptr) chosen symbolically; '
+           'char, char16_t, char32_t. Memory::Copy/SetToZero: every length 0..80 bytes (quick: 12 block-boundary lengths), source and '
+           'destination at offset 1 of exact-size blocks with guard bytes on both sides, three builds',
+ 'outside': 'capacities above 4 (8 for streams), argument lengths above 3, histories are covered by induction over the representation (every '
+            'pre-state is reached through the public API; pre-states with capacity > 4 are not built); self-MOVE-append (a += move(a), '
+            's += move(s)) is treated as a caller error; Array::Sort (C15); the two generic operator<<(Stream_T&, ...) overloads; '
+            'copy lengths above 80 bytes; alignment is not a dimension of the encoding (the intrinsics used are the unaligned forms, CBMC has no '
+            'alignment faults); StringStream::operator+=(const StringView<char>&) only exists for Char_T = char (the parameter type is '
+            'spelled StringView<char>, so it does not compile for the wider streams; reported, not a run-time property)',
+ 'assumptions': ['Tracked element stand-in (q2c/standins/tracked.hpp): id + global live-object ledger',
+                 'containers are checked in the scalar build; the SSE2/AVX2 builds differ only inside Memory::Copy/SetToZero, which are checked separately '
+                 'against the byte-wise definition in all three builds'],
 }
+
+# dev switch: while the finding ids below are not yet in known_findings.json, C14_KF_TEST=1 passes the KF_EXCL_/KF_ONLY_ defines
+# by hand so that both halves of the protocol can be exercised
+KF_TEST = os.environ.get('C14_KF_TEST', '') not in ('', '0')
+
+def Q(out, name, harness, entry, defs, kf=None, kf_twin=True, **kw):
+    """normal query (finding `kf` assumed away while it is open) and, if kf_twin, its kf_only twin that must reproduce it"""
+    if kf is None:
+        out.append(Query(name, harness, entry, defs, **kw)); return
+    tag = kf.replace('-', '_')
+    if KF_TEST:
+        d = dict(defs); d['KF_EXCL_' + tag] = 1
+        out.append(Query(name, harness, entry, d, **kw))
+        if kf_twin:
+            d = dict(defs); d['KF_ONLY_' + tag] = 1
+            out.append(Query(name + '/kf', harness, entry, d, **kw))
+    else:
+        out.append(Query(name, harness, entry, defs, kf_excl=(kf,), **kw))
+        if kf_twin: out.append(Query(name + '/kf', harness, entry, defs, kf_only=kf, **kw))
+
+CSZ = {'char': 1, 'char16_t': 2, 'char32_t': 4}
 CFG = {'scalar': (), 'sse2': ('-DQENTEM_SSE2=1', '-msse2'), 'avx2': ('-DQENTEM_AVX2=1', '-mavx2')}
 
 def mem_queries(tier):
@@ -16,26 +63,140 @@ def mem_queries(tier):
                 sh = {'scalar': 0, 'sse2': 4, 'avx2': 5}[cfg]
                 it = max(n >> sh, (n & ((1 << sh) - 1)) if sh else n)      # vector blocks, then byte tail
                 b = {'Copy|SetToZero': it + 1, 'vf_buf.*': n + 3}
-                qs.append(Query('mem/%s/%s/L%d' % (e[2:], cfg, n), 'C14_memory.cpp', e, {'LEN': n, 'PRE': 1, 'POST': 1, 'SPRE': 1},
-                                bounds=b, cflags=fl, timeout=120, mem_gb=8))
+                Q(qs, 'mem/%s/%s/L%d' % (e[2:], cfg, n), 'C14_memory.cpp', e, {'LEN': n, 'PRE': 1, 'POST': 1, 'SPRE': 1},
+                  bounds=b, cflags=fl, timeout=120, mem_gb=8)
     return qs
 
-PRIV = ('-Dprivate=public', '-Dprotected=public')
 AOPS = {'copy_ctor': 1, 'move_ctor': 2, 'copy_assign': 3, 'move_assign': 4, 'append_copy': 5, 'append_move': 6, 'item_copy': 7,
         'item_move': 8, 'insert_copy': 9, 'insert_move': 10, 'clear': 11, 'reset': 12, 'detach': 13, 'reserve': 14, 'resize': 15,
         'resize_init': 16, 'expect': 17, 'compress': 18, 'drop': 19, 'ctor_size': 20, 'swap': 21, 'insert_arr_copy': 22,
-        'insert_arr_move': 23, 'item_alias': 24}
+        'insert_arr_move': 23}
+A_KF = {'append_copy': 'C14-array-append-copy', 'insert_arr_copy': 'C14-array-append-copy',
+        'item_copy': 'C14-array-append-own-item', 'insert_copy': 'C14-array-append-own-item'}
+A_TWO = ('copy_assign', 'move_assign', 'append_copy', 'append_move', 'insert_arr_copy', 'insert_arr_move')   # use the second array
+A_NARG = ('reserve', 'resize', 'resize_init', 'expect', 'ctor_size')
 
 def arr_queries(tier):
     qs = []
+    quick = tier == 'quick'
+    caps = (0, 1, 2, 4) if quick else (0, 1, 2, 3, 4)
+    nargs = (0, 1, 3) if quick else (0, 1, 2, 3, 5)
     for elem, en in ((0, 'int'), (1, 'tracked')):
-        for cap in (0, 1, 2, 4):
-            for op, code in AOPS.items():
-                esz = 8 if elem else 4
-                b = {'Copy': max(cap, 2) * esz + 1, '.*': 6}
-                qs.append(Query('array/%s/%s/cap%d' % (en, op, cap), 'C14_array.cpp', 'h_array', {'ELEM': elem, 'CAP': cap, 'OP': code},
-                                bounds=b, timeout=120, mem_gb=8))
+        esz = 8 if elem else 4
+        for op, code in AOPS.items():
+            for cap in caps:
+                if op == 'swap' and cap == 0: continue              # needs an element
+                if op == 'ctor_size' and cap != 0: continue         # no pre-state involved
+                for bcap in ((2,) if quick or op not in A_TWO else (0, 1, 2, 4)):
+                    for narg in (nargs if op in A_NARG else (None,)):
+                        for init in ((0, 1) if op in ('reserve', 'ctor_size') else (None,)):
+                            d = {'ELEM': elem, 'CAP': cap, 'OP': code, 'BCAP': bcap}
+                            name = 'array/%s/%s/cap%d' % (en, op, cap)
+                            if op in A_TWO and not quick: name += '/b%d' % bcap
+                            if narg is not None: d['NARG'] = narg; name += '/n%d' % narg
+                            if init is not None: d['INIT'] = init; name += '/i%d' % init
+                            big = max(cap, bcap if op in A_TWO else 0, narg or 0)
+                            b = {'Copy': max(cap, bcap if op in A_TWO else 1) * esz + 1, '.*': big + 2}
+                            kf = A_KF.get(op)
+                            twin = kf is not None and cap >= 1 and (not quick or cap == 2)
+                            Q(qs, name, 'C14_array.cpp', 'h_array', d, kf=kf, kf_twin=twin, bounds=b, timeout=300, mem_gb=8)
+    return qs
+
+SOPS = {'copy_ctor': 1, 'move_ctor': 2, 'ctor_len': 3, 'ctor_adopt': 4, 'ctor_ptr_len': 5, 'ctor_cstr': 6, 'copy_assign': 7, 'move_assign': 8,
+        'assign_cstr': 9, 'append_copy': 10, 'append_move': 11, 'append_cstr': 12, 'append_char': 13, 'plus_copy': 14, 'plus_move': 15,
+        'plus_cstr': 16, 'shift_cstr': 17, 'shift_string': 18, 'cmp_string': 19, 'eq_cstr': 20, 'cmp_cstr': 21, 'isequal': 22, 'reset': 23,
+        'detach': 24, 'merge': 25, 'write': 26, 'trim': 27, 'stepback': 28, 'reverse': 29, 'insertat': 30, 'write_alias': 31,
+        'append_cstr_alias': 32}
+S_KF = {'eq_cstr': 'C14-string-eq-null', 'stepback': 'C14-string-stepback-null', 'assign_cstr': 'C14-string-assign-own-cstr'}
+S_NOPRE = ('ctor_len', 'ctor_adopt', 'ctor_ptr_len', 'ctor_cstr')      # the pre-state plays no role
+S_BSTR = ('copy_assign', 'move_assign', 'append_copy', 'append_move', 'plus_copy', 'plus_move', 'shift_string', 'cmp_string', 'merge')
+S_BLEN = S_BSTR + ('ctor_cstr', 'assign_cstr', 'append_cstr', 'plus_cstr', 'shift_cstr', 'eq_cstr', 'cmp_cstr', 'isequal', 'write')
+
+def str_queries(tier):
+    qs = []
+    quick = tier == 'quick'
+    for ch in ('char', 'char16_t', 'char32_t'):
+        csz = CSZ[ch]
+        if quick: states = ((0, 0), (1, 0), (1, 2)) if ch == 'char' else ((0, 0), (1, 2))
+        else: states = ((0, 0), (1, 0), (1, 1), (1, 2), (1, 3), (1, 4))
+        for op, code in SOPS.items():
+            for kind, ln in states:
+                if kind == 0 and op.endswith('_alias'): continue
+                if op in S_NOPRE and (kind, ln) != (0, 0): continue
+                blens = (2,) if quick or op not in S_BLEN else (0, 1, 2, 3)
+                nargs = (None,)
+                if op in ('ctor_len', 'ctor_adopt', 'ctor_ptr_len'): nargs = (0, 2) if quick else (0, 1, 2, 3)
+                if op == 'write_alias': nargs = (min(ln, 1),) if quick else tuple(range(0, min(ln, 2) + 1))
+                for blen in blens:
+                    for bkind in ((1,) if quick or op not in S_BSTR else (0, 1)):
+                        if bkind == 0 and blen != blens[0]: continue
+                        for narg in nargs:
+                            d = {'CHAR': ch, 'KIND': kind, 'LEN': ln, 'OP': code, 'BLEN': blen, 'BKIND': bkind}
+                            name = 'string/%s/%s/k%dl%d' % (ch, op, kind, ln)
+                            if not quick and op in S_BLEN: name += '/b%d%d' % (bkind, blen)
+                            if narg is not None: d['NARG'] = narg; name += '/n%d' % narg
+                            most = max(ln, blen, narg or 0)
+                            b = {'Copy': most * csz + 1, '.*': ln + blen + (narg or 0) + 2}
+                            kf = S_KF.get(op)
+                            twin = kf is not None and not (op == 'stepback' and kind != 0) and not (op == 'assign_cstr' and kind == 0)
+                            if quick and ch != 'char': twin = False
+                            Q(qs, name, 'C14_string.cpp', 'h_string', d, kf=kf, kf_twin=twin, bounds=b, timeout=300, mem_gb=8)
+    return qs
+
+TOPS = {'copy_ctor': 1, 'move_ctor': 2, 'ctor_size': 3, 'copy_assign': 4, 'move_assign': 5, 'assign_cstr': 6, 'assign_string': 7, 'assign_view': 8,
+        'append_char': 9, 'append_stream': 10, 'append_string': 11, 'append_view': 12, 'append_cstr': 13, 'shift_stream': 14,
+        'shift_string': 15, 'shift_view': 16, 'shift_char': 17, 'shift_cstr': 18, 'eq_stream': 19, 'eq_string': 20, 'eq_view': 21,
+        'eq_cstr': 22, 'isequal': 23, 'write': 24, 'clear': 25, 'reset': 26, 'stepback': 27, 'reverse': 28, 'insertat': 29,
+        'setlength': 30, 'buffer': 31, 'expect': 32, 'reserve': 33, 'detach': 34, 'getstring': 35, 'getstringview': 36, 'insertnull': 37}
+T_KF = ('append_stream', 'shift_stream', 'append_view', 'shift_view', 'write')
+T_TWO = ('copy_assign', 'move_assign', 'append_stream', 'shift_stream', 'eq_stream')
+T_BLEN = ('assign_cstr', 'assign_string', 'assign_view', 'append_string', 'append_view', 'append_cstr', 'shift_string', 'shift_view', 'shift_cstr',
+          'eq_string', 'eq_view', 'eq_cstr', 'isequal', 'write')
+T_NARG = ('ctor_size', 'setlength', 'buffer', 'expect', 'reserve')
+
+def stream_queries(tier):
+    qs = []
+    quick = tier == 'quick'
+    nargs = (0, 1, 3) if quick else (0, 1, 2, 3, 5)
+    for ch in ('char', 'char16_t', 'char32_t'):
+        csz = CSZ[ch]
+        if quick: caps = (0, 1, 2, 4) if ch == 'char' else (0, 2)
+        else: caps = (0, 1, 2, 4, 8)
+        for op, code in TOPS.items():
+            if op == 'append_view' and ch != 'char': continue       # operator+=(const StringView<char>&) exists for char streams only
+            for cap in caps:
+                if op == 'ctor_size' and cap != 0: continue
+                for bcap in ((2,) if quick or op not in T_TWO else (0, 1, 2, 4)):
+                    for blen in ((2,) if quick or op not in T_BLEN else (0, 1, 2, 3)):
+                        for narg in (nargs if op in T_NARG else (None,)):
+                            d = {'CHAR': ch, 'CAP': cap, 'OP': code, 'BCAP': bcap, 'BLEN': blen, 'APPEND_VIEW_OK': 1 if ch == 'char' else 0}
+                            name = 'stream/%s/%s/cap%d' % (ch, op, cap)
+                            if not quick and op in T_TWO: name += '/b%d' % bcap
+                            if not quick and op in T_BLEN: name += '/l%d' % blen
+                            if narg is not None: d['NARG'] = narg; name += '/n%d' % narg
+                            most = max(cap, bcap if op in T_TWO else 0, blen if op in T_BLEN else 0)
+                            b = {'Copy': max(most, 1) * csz + 1, '.*': most + (narg or 0) + 3}
+                            kf = 'C14-stream-self-append' if op in T_KF else None
+                            twin = kf is not None and cap >= 1 and (not quick or (ch == 'char' and cap == 2))
+                            Q(qs, name, 'C14_stream.cpp', 'h_stream', d, kf=kf, kf_twin=twin, bounds=b, timeout=300, mem_gb=8)
+    return qs
+
+VOPS = {'copy_ctor': 1, 'move_ctor': 2, 'ctor_cstr': 3, 'copy_assign': 4, 'move_assign': 5, 'assign_cstr': 6, 'cmp_view': 7, 'cmp_cstr': 8,
+        'isequal': 9, 'reset': 10}
+
+def view_queries(tier):
+    qs = []
+    quick = tier == 'quick'
+    for ch in ('char', 'char16_t', 'char32_t'):
+        states = ((0, 0), (1, 0), (1, 2)) if quick else ((0, 0), (1, 0), (1, 1), (1, 2), (1, 3), (1, 4))
+        for op, code in VOPS.items():
+            for kind, ln in states:
+                if op == 'ctor_cstr' and (kind, ln) != (0, 0): continue
+                for blen in ((2,) if quick else (0, 1, 2, 3)):
+                    d = {'CHAR': ch, 'KIND': kind, 'LEN': ln, 'OP': code, 'BLEN': blen}
+                    name = 'view/%s/%s/k%dl%d' % (ch, op, kind, ln) + ('' if quick else '/b%d' % blen)
+                    Q(qs, name, 'C14_view.cpp', 'h_view', d, bounds={'.*': max(ln, blen) + 2}, timeout=120, mem_gb=8)
     return qs
 
 def queries(tier):
-    return mem_queries(tier) + arr_queries(tier)
+    return mem_queries(tier) + arr_queries(tier) + str_queries(tier) + stream_queries(tier) + view_queries(tier)
